@@ -254,6 +254,12 @@ impl Check for Gates {
     fn components(&self) -> serde_json::Value {
         serde_json::json!({"real": ["examples/fungible-{pausable,allowlist,blocklist,capped} (from source)", "AllowList / BlockList wrappers wiring every library override", "pausable storage + when_not_paused macro", "capped::check_cap"], "stub": ["Wallet"]})
     }
+    fn dup_ok(&self, _s: &Step) -> bool {
+        true
+    }
+    fn reorder_ok(&self) -> bool {
+        true
+    }
     fn generate(&self, rng: &mut Rng, tier: Tier) -> (Cfg, std::vec::Vec<Step>) {
         let kind = *rng.pick(&[Kind::PausableExample, Kind::AllowExample, Kind::AllowWrapper, Kind::BlockExample, Kind::BlockWrapper, Kind::CappedExample]);
         let cfg = Cfg { kind, actors: 4, cap: match rng.below(4) { 0 => 0, 1 => i128::MAX, _ => 1000 + rng.below(100_000) as i128 } };
